@@ -24,16 +24,16 @@ def _real(a):
     return x + "real"
 
 
-def _scalar_u64(a):
+def _scalar_u64(a, idx="index", cnt="start_configs"):
     """literal | index | start_configs | sums, differences and products of these -> spec expression over i (replica index), n (replica count)"""
     toks = re.findall(r"\d+|[A-Za-z_]\w*|[-+*()]", a)
     if "".join(toks) != a or not toks:
         return None
     out = []
     for t in toks:
-        if t == "index":
+        if t == idx:
             out.append("(i as int)")
-        elif t == "start_configs":
+        elif t == cnt:
             out.append("(n as int)")
         elif _INT.match(t):
             out.append(t + "int")
@@ -42,7 +42,7 @@ def _scalar_u64(a):
         else:
             return None
     if len(toks) == 1:
-        return "i" if toks[0] == "index" else ("n" if toks[0] == "start_configs" else toks[0])
+        return "i" if toks[0] == idx else ("n" if toks[0] == cnt else (toks[0] if _INT.match(toks[0]) else None))
     return "((%s) as u64)" % " ".join(out)
 
 
@@ -57,11 +57,21 @@ def stage_keys(repo, args):
         raise ExtractError("gen stage_keys: no `optimiser.clone()...build().optimise_state(..)` chain in %s" % fn)
     if body.count("optimise_state(") != len(stages):
         raise ExtractError("gen stage_keys: an optimise_state call of %s is not of the understood form" % fn)
+    # names are read off the code: the replica index is the parameter of the first closure after `(0..COUNT).into_par_iter()`,
+    # later stages receive `(index, previous result)`, the starting state is the parameter of type `impl State`
+    msrc = re.search(r"\(\s*0\s*\.\.\s*(\w+)\s*\)\s*\.\s*into_par_iter\(\)\s*\.\s*map\(\s*(?:move\s+)?\|\s*(\w+)\s*\|", body)
+    mstate = re.search(r"(\w+)\s*:\s*impl\s+State\b", body)
+    if not msrc or not mstate:
+        raise ExtractError("gen stage_keys: `(0..count).into_par_iter().map(|index| ..)` over a `state: impl State` parameter not found in %s" % fn)
+    cnt, idx, st0 = msrc.group(1), msrc.group(2), mstate.group(1)
+    later = re.findall(r"\.\s*map\(\s*(?:move\s+)?\|\s*\(\s*(\w+)\s*,\s*(\w+)\s*\)\s*\|", body)
+    if len(later) != len(stages) - 1 or any(a != idx for a, _ in later):
+        raise ExtractError("gen stage_keys: the stages of %s after the first do not all take `(%s, previous result)`" % (fn, idx))
     out = []
     for n, (setters, arg) in enumerate(stages, 1):
         arg = "".join(arg.split())
-        if (n == 1 and arg != "state.clone()") or (n > 1 and arg != "opt_state"):
-            raise ExtractError("gen stage_keys: stage %d of %s optimises `%s` (expected %s)" % (n, fn, arg, "state.clone()" if n == 1 else "the previous stage's result"))
+        if (n == 1 and arg != st0 + ".clone()") or (n > 1 and arg != later[n - 2][1]):
+            raise ExtractError("gen stage_keys: stage %d of %s optimises `%s` (expected %s)" % (n, fn, arg, st0 + ".clone()" if n == 1 else "the previous stage's result"))
         upd = {}
         for name, a in re.findall(r"\.\s*(\w+)\(\s*([^()]*(?:\([^()]*\))?[^()]*?)\s*\)", setters):
             a = "".join(a.split())
@@ -90,7 +100,7 @@ def stage_keys(repo, args):
                     raise ExtractError("gen stage_keys: %s(%s) is not an integer literal" % (name, a))
                 upd[name] = a
             elif name == "seed":
-                v = _scalar_u64(a)
+                v = _scalar_u64(a, idx, cnt)
                 if v is None:
                     raise ExtractError("gen stage_keys: seed(%s) is not an expression over literals, the replica index and the replica count" % a)
                 upd[name] = "Some(%s)" % v
